@@ -93,6 +93,13 @@ Definition sample_of (s : list N) : N :=
 (* the n-th three byte sample of the stream is acceptable *)
 Definition accept_at (n : nat) (s : list N) : Prop := sample_of (skipn (3 * n) s) < passkey_limit.
 
+Lemma skipn_plus (a b : nat) (l : list N) : skipn (a + b) l = skipn a (skipn b l).
+Proof.
+  revert l. induction b as [|b IH]; intros l.
+  - rewrite Nat.add_0_r. reflexivity.
+  - rewrite Nat.add_succ_r. destruct l as [|x l]; cbn [skipn]; [rewrite skipn_nil; reflexivity|apply IH].
+Qed.
+
 Lemma tl3_skipn (s : list N) : tl (tl (tl s)) = skipn 3 s.
 Proof. destruct s as [|a [|b [|c s]]]; reflexivity. Qed.
 
@@ -107,19 +114,24 @@ Proof.
   revert s. induction fuel as [|f IH]; intros s [n [Hn Ha]]; [lia|].
   rewrite passkey_loop_unfold. destruct (sample_of s <? passkey_limit) eqn:E; [discriminate|].
   apply IH. destruct n as [|n'].
-  - unfold accept_at in Ha. cbn [Nat.mul skipn] in Ha. apply N.ltb_ge in E. lia.
+  - unfold accept_at in Ha. change (3 * 0)%nat with 0%nat in Ha. cbn [skipn] in Ha.
+    apply N.ltb_ge in E. lia.
   - exists n'. split; [lia|]. unfold accept_at in *.
     replace (3 * S n')%nat with (3 * n' + 3)%nat in Ha by lia.
-    rewrite <- skipn_skipn in Ha. exact Ha.
+    rewrite skipn_plus in Ha. exact Ha.
 Qed.
 
 (* past its end the stream reads as zeros, and a sample with a zero third byte is acceptable:
    length s / 3 + 1 iterations are always enough *)
+Lemma sample_of_third_zero s : hd 0 (tl (tl s)) = 0 -> sample_of s < passkey_limit.
+Proof.
+  intros E. unfold sample_of. rewrite E. rewrite sample20_closed by nlia. unfold passkey_limit. nlia.
+Qed.
+
 Lemma sample_of_short s : (length s < 3)%nat -> sample_of s < passkey_limit.
 Proof.
-  intros H. unfold sample_of.
-  assert (E : hd 0 (tl (tl s)) = 0) by (destruct s as [|a [|b [|c s]]]; cbn in *; try reflexivity; lia).
-  rewrite E. rewrite sample20_closed by nlia. unfold passkey_limit. nlia.
+  intros H. apply sample_of_third_zero.
+  destruct s as [|a [|b [|c s]]]; cbn in *; try reflexivity; lia.
 Qed.
 
 Theorem passkey_loop_enough_fuel fuel s : (length s / 3 < fuel)%nat -> passkey_loop fuel s <> None.
